@@ -42,6 +42,8 @@ const (
 	oFaults                     // one API call may fail (server error)
 	oThreeRevs                  // pods may carry a third (neither current nor update) revision
 	oStatusSym                  // generation and the stored status are arbitrary (else fixed)
+	oStatusConflict             // the status write may hit a conflict (and is then retried)
+	oBase8                      // ordinals 0..7 hold healthy up-to-date pods; the symbolic part of the world starts at ordinal 8
 )
 
 type vPodInfo struct {
@@ -61,6 +63,7 @@ type vSnap struct {
 	pods     []*vPodInfo
 	r        int32
 	slots    []int32
+	base     int    // ordinals below base are concrete healthy desired pods
 	n        int    // universe of ordinals [0,n)
 	desired  []bool // D(r,S) on the universe
 	inSlot   []bool
@@ -99,13 +102,17 @@ func (p *vPodInfo) finished() bool { return sym.Or(p.phase == string(v1.PodFaile
 // most K delete slots.
 func vBuildSnap(N, R, K, opts int) *vSnap {
 	s := &vSnap{w: &vWorld{}, n: R + K + 1}
+	if opts&oBase8 != 0 {
+		s.base = 8
+		s.n += s.base
+	}
 	w := s.w
-	s.r = int32(sym.IntIn("r", 0, R))
+	s.r = int32(s.base) + int32(sym.IntIn("r", 0, R))
 	set := vNewSet(s.r)
 	// delete slots: values anywhere in the universe (below, inside, above the range)
 	k := sym.Pick("k", K+1)
 	for i := 0; i < k; i++ {
-		s.slots = append(s.slots, int32(sym.IntIn("slot", 0, s.n-1)))
+		s.slots = append(s.slots, int32(sym.IntIn("slot", s.base, s.n-1)))
 	}
 	if k > 0 {
 		set.Annotations = map[string]string{helper.DeleteSlotsAnn: sym.SlotsJSON(s.slots)}
@@ -189,8 +196,24 @@ func vBuildSnap(N, R, K, opts int) *vSnap {
 	w.sets = []*apps.StatefulSet{set}
 	w.apiSets = []*apps.StatefulSet{set.DeepCopy()}
 
+	// below the base every desired ordinal holds a healthy, up-to-date pod
+	for b := 0; b < s.base; b++ {
+		pod := newStatefulSetPod(set, b)
+		pod.UID = "uid-snap-pod"
+		pod.Status.Phase = v1.PodRunning
+		pod.Status.Conditions = []v1.PodCondition{{Type: v1.PodReady, Status: v1.ConditionTrue}}
+		setPodRevision(pod, s.upd.Name)
+		s.pods = append(s.pods, &vPodInfo{pod: pod, ord: b, phase: string(v1.PodRunning), ready: string(v1.ConditionTrue), rev: s.upd.Name})
+		w.pods = append(w.pods, pod)
+		w.apiPods = append(w.apiPods, pod.DeepCopy())
+		for _, c := range getPersistentVolumeClaims(set, pod) {
+			c := c
+			w.pvcs = append(w.pvcs, &c)
+			w.apiPVCs = append(w.apiPVCs, c.DeepCopy())
+		}
+	}
 	// pods: increasing ordinals, each attribute symbolic
-	next := 0
+	next := s.base
 	for i := 0; i < N; i++ {
 		room := s.n - next
 		if room <= 0 {
@@ -237,6 +260,9 @@ func vBuildSnap(N, R, K, opts int) *vSnap {
 	s.names[vSetName+"-other"] = "rev(other)"
 	if opts&oFaults != 0 {
 		w.faultBudget, w.faultKinds = 1, 1
+	}
+	if opts&oStatusConflict != 0 {
+		w.faultBudget, w.faultKinds, w.faultOnly = 1, 2, "set.updateStatus"
 	}
 	return s
 }
